@@ -37,6 +37,11 @@ DOCS = [
     ("four-named-fragments", "subscription S($n: Int = 2) { ...G1 } fragment G1 on Subscription { ...G2 } fragment G2 on Subscription { ...G3 } "
                              "fragment G3 on Subscription { ...G4 } fragment G4 on Subscription { t: tick(n: $n) { id } }", {}),
 ]
+DOCS += [
+    # several operations in the request document: the one selected by operationName is what every event is executed with
+    ("selected-among-three-operations", "query Q { num } subscription S { tick { id a } } subscription T { count }", None),
+    ("selected-last-with-variables", "subscription T($n: Int = 9) { tick(n: $n) { id } } subscription S($n: Int = 2) { t: tick(n: $n) { id a } }", {"n": 4}),
+]
 REFUSED = [
     ("unknown-field", "subscription { tick { zz } }", None),
     ("two-roots", "subscription { tick { id } count }", None),
@@ -96,12 +101,19 @@ def judge_stream(schema, located, op, variables, scn, events, responses):
     return None
 
 
+def the_op(located):
+    """the operation a document of DOCS is run with: the one named S when the document holds several"""
+    if len(located.operations) > 1:
+        return [o for o in located.operations if o.name == "S"][0]
+    return located.operations[0]
+
+
 def root_field_node(schema, located, variables):
     """the (single) root field node of the subscription, wherever the document puts it (fragments, inline fragments)"""
-    vals, _ = C.coerce_variables(schema, located.operations[0], variables)
+    vals, _ = C.coerce_variables(schema, the_op(located), variables)
     ex = X.Executor(schema, located, Scenario(root=None))
     ex.vars = vals
-    groups = ex.collect(schema.subscription, located.operations[0].sel, {}, set())
+    groups = ex.collect(schema.subscription, the_op(located).sel, {}, set())
     return list(groups.values())[0][0]
 
 
@@ -140,7 +152,7 @@ def run_shard(item):
         _, di, first, L = item
         label, text, variables = DOCS[di]
         text, located = doc.roundtrip(doc.parse(text))
-        op = located.operations[0].name
+        op = the_op(located).name
         seqs = [()] if first == "" else [(first,) + rest for n in range(0, L) for rest in itertools.product(ALPHABET, repeat=n)]
         for seq in seqs:
             events = [payload(k, i, schema) for i, k in enumerate(seq)]
@@ -171,7 +183,7 @@ def run_shard(item):
                             clause = "source-started-%d-times" % len(starts)
                         else:
                             fnode = root_field_node(schema, located, variables)
-                            vals, bad = C.coerce_variables(schema, located.operations[0], variables)
+                            vals, bad = C.coerce_variables(schema, the_op(located), variables)
                             want = C.freeze(C.coerce_arguments(schema, schema.field_def("Subscription", fnode.name).args, fnode.args, vals))
                             if starts[0][2] != want:
                                 clause = "source-arguments-differ"
@@ -208,7 +220,7 @@ def run_shard(item):
         # container type carrying attributes); each must be answered from *that* object
         for label, text, variables in DOCS:
             text, located = doc.roundtrip(doc.parse(text))
-            op = located.operations[0].name
+            op = the_op(located).name
             for seq in (("F",), ("W", "F"), ("F", "W", "Z"), ("Z", "Z"), ("F", "N", "W")):
                 plain = [payload("W" if k in ("F", "Z") else k, i, schema) for i, k in enumerate(seq)]
                 events = [FalsyBox(ev) if k == "F" else ZeroLen(ev) if k == "Z" else ev for k, ev in zip(seq, plain)]
@@ -239,7 +251,7 @@ def run_shard(item):
         eng2 = explore.engine_for("K-c14-cdr", schema, resolvers=fqs, custom_default_resolver=cdr)
         for label, text, variables in DOCS:
             text, located = doc.roundtrip(doc.parse(text))
-            op = located.operations[0].name
+            op = the_op(located).name
             for seq in (("W",), ("W", "W"), ("W", "E2", "W"), ("N", "W")):
                 seen_by_model = [payload(k, i, schema) for i, k in enumerate(seq)]
                 events = []
@@ -337,7 +349,7 @@ def run_shard(item):
         # two concurrent streams on one engine: every interleaving; each stream = its solo behaviour
         label, text, variables = DOCS[1]
         text, located = doc.roundtrip(doc.parse(text))
-        op = located.operations[0].name
+        op = the_op(located).name
         for sa in itertools.product(ALPHABET, repeat=2):
             for sb in itertools.product(ALPHABET[:2], repeat=2):
                 ea = [payload(k, i, schema) for i, k in enumerate(sa)]
